@@ -1438,6 +1438,10 @@ func (c *Compiler) writeNodeReset(node *node, v string, depth int) error {
 					pfx = ""
 				}
 				c.wl(nv, ":=", pfx, c.fmtVd(node, v, depth), "[i]")
+				if node.slct.ptr {
+					// A nil element has nothing to reset.
+					c.wl("if ", nv, "==nil{continue}")
+				}
 				_ = c.writeNodeReset(node.slct, nv, depth+1)
 				c.wl("}")
 			}
@@ -1461,7 +1465,14 @@ func (c *Compiler) writeNodeReset(node *node, v string, depth int) error {
 			def = `""`
 		}
 		if len(def) > 0 {
+			if node.ptr {
+				// A nil pointer has nothing to reset.
+				c.wl("if ", v, "!=nil{")
+			}
 			c.wl(c.fmtVnb(node, v, depth), "=", def)
+			if node.ptr {
+				c.wl("}")
+			}
 		}
 	}
 	return nil
